@@ -211,3 +211,70 @@ Theorem C19_api_save_load : forall (ops : list (list Z)) (t : fav) (n : Z),
     (need_rebuild t = false -> t1 = t /\ fst (fill_cache t) = fst t /\ map zero_item (snd (fill_cache t)) = snd t).
 Proof. exact api_save_load. Qed.
 Print Assumptions C19_api_save_load.
+
+(* Several Saves of several users in ONE process (Model/C19.v: hstep, step_syscalls, run_hist; run_case op 8 is what the
+   harness replays against ptt/fav). The homes share one file system, file n of user u's home has the name uname u n.
+   A history is any list of steps: HSave u f (an ordinary Save of user u), HRefused u f k (a Save that is refused or fails
+   after k bytes of the image went into its temporary file - an entry whose payload does not match its type, a failing
+   write -: the temporary file holds those k bytes, there is no rename), HNoHome u f (the temporary file cannot be
+   created). last_saved u h (Proofs/C19_hist.v) = the tree of the last HSave of user u in h.
+   For EVERY history of trees with consistent counters, over ANY initial file system, and every user u: .fav of u is
+   exactly the image of the cleaned tree of u's last ordinary Save - nothing of any refused or failed Save, of u or of
+   anybody else, before or after it, is in it - and Load reads it as that tree; a user without an ordinary Save has the
+   .fav it had before. (Applied to every prefix of h this holds at every moment of the history.) *)
+Theorem C19_save_history : forall (z : bool) (h : list hstep),
+  Forall (fun st => lvl z (step_tree st)) h ->
+  forall (disk : fs) (u : Z),
+  match last_saved u h with
+  | None => lookup (uname u FN_FAV) (run_hist h disk) = lookup (uname u FN_FAV) disk
+  | Some f => exists f1, cleanup f = Ok f1 /\ wf_fav f1 /\
+                lookup (uname u FN_FAV) (run_hist h disk) = Some (spec_file f1) /\
+                load (spec_file f1) = ROk (renumber f1)
+  end.
+Proof. exact save_history. Qed.
+Print Assumptions C19_save_history.
+
+(* one step of such a history, over ANY file system (whatever the earlier Saves left there): an ordinary Save returns the
+   reloaded cleaned tree, leaves exactly its image in the user's .fav and touches no file but that .fav and its own
+   temporary file; a refused Save touches nothing but its own temporary file *)
+Theorem C19_save_step : forall (z : bool) (u : Z) (f : fav) (disk : fs), lvl z f ->
+  exists f1, cleanup f = Ok f1 /\ wf_fav f1 /\
+    save 1 (lookup (uname u FN_FAV) disk) f = SOk (Some (spec_file f1)) (renumber f1) /\
+    lookup (uname u FN_FAV) (exec disk (step_syscalls (HSave u f))) = Some (spec_file f1) /\
+    load (spec_file f1) = ROk (renumber f1) /\
+    (forall m, m <> uname u FN_FAV -> m <> uname u FN_TMP ->
+       lookup m (exec disk (step_syscalls (HSave u f))) = lookup m disk).
+Proof. exact save_step. Qed.
+Print Assumptions C19_save_step.
+
+Theorem C19_refused_save_frame : forall (u : Z) (f : fav) (k : nat) (disk : fs) (m : Z), m <> uname u FN_TMP ->
+  lookup m (exec disk (step_syscalls (HRefused u f k))) = lookup m disk.
+Proof. exact refused_step_frame. Qed.
+Print Assumptions C19_refused_save_frame.
+
+(* How large a legal .fav is. EVERY tree built through the API (<= MAX_FAV = 1024 entries, any mix of boards, lines and
+   folders at any depth) is written as a file of at most 6 + 56 * MAX_FAV = 57350 bytes - an entry costs at most 56 bytes:
+   a folder is 52 bytes plus the 4 bytes of counts of its own record, a board 14, a line 3 - and Load reads that file
+   back as the tree ... *)
+Theorem C19_api_image_size : forall (ops : list (list Z)) (t : fav) (n : Z),
+  run_script ops empty_fav 0 = Some (t, n) ->
+  file_image t = Ok (spec_file t) /\ lenZ (spec_file t) <= 6 + 56 * ptt_fav.MAX_FAV /\
+  load (spec_file t) = ROk (renumber t).
+Proof. exact api_image_size. Qed.
+Print Assumptions C19_api_image_size.
+
+(* ... the bound is reached (64 folders of 15 folders each: 1024 entries, 57350 bytes), so no reader may refuse files below
+   it; in particular the size of 1024 boards (6 + 1024 * 14 = 14342 bytes) is NOT an upper bound: 16 folders of 62 boards
+   are 1008 entries and 14790 bytes. grid_script (Proofs/C19_size.v) builds these shapes; the harness saves and loads the same
+   shapes (other titles) and further trees near the limits through ptt/fav on every run. *)
+Theorem C19_largest_image : exists t,
+  run_script (grid_script 64 15 0) empty_fav 0 = Some (t, 0) /\ total_items (snd t) = ptt_fav.MAX_FAV /\
+  lenZ (spec_file t) = 6 + 56 * ptt_fav.MAX_FAV /\ load (spec_file t) = ROk (renumber t).
+Proof. exact largest_image. Qed.
+Print Assumptions C19_largest_image.
+
+Theorem C19_folders_beat_boards : exists t,
+  run_script (grid_script 16 0 62) empty_fav 0 = Some (t, 0) /\ total_items (snd t) = 1008 /\
+  lenZ (spec_file t) = 14790 /\ 6 + ptt_fav.MAX_FAV * 14 < 14790 /\ load (spec_file t) = ROk (renumber t).
+Proof. exact folders_beat_boards. Qed.
+Print Assumptions C19_folders_beat_boards.
